@@ -151,7 +151,7 @@ Proof.
   intros Hc. induction pre as [|o pre IH]; intros i post H.
   - cbn [app List.length]. rewrite Nat.add_0_r. reflexivity.
   - cbn [none_claims forallb] in H. apply andb_true_iff in H as [Ho H]. destruct o as [cf|]; [|discriminate].
-    apply negb_true_iff in Ho. cbn [app parse_all_from]. unfold parse_one.
+    apply negb_true_iff in Ho. cbn [app parse_all_from]. unfold parse_one, parse_one_v.
     rewrite (a_find_sound _ _ _ Hc Ho). rewrite (IH (S i) post H). cbn [List.length]. f_equal. lia.
 Qed.
 
@@ -219,7 +219,7 @@ Definition may_claimers (fs : list (option cfmt)) (k : nat) (shs : list (list ab
 Lemma may_claimers_sound fs k shs j cf text sh now : (j < k)%nat -> nth_error fs j = Some (Some cf) ->
   ~ In j (may_claimers fs k shs) -> In sh shs -> concrs text sh -> parse_one now cf text = None.
 Proof.
-  intros Hj Hn Hnot Hsh Hc. unfold parse_one.
+  intros Hj Hn Hnot Hsh Hc. unfold parse_one, parse_one_v.
   destruct (a_find (cf_rx cf) sh) eqn:E.
   - exfalso. apply Hnot. unfold may_claimers. apply filter_In. split; [apply in_seq; lia|].
     rewrite Hn. apply existsb_exists. exists sh. split; assumption.
